@@ -517,10 +517,14 @@ class CallMixin:
                     st.assume(self.spec_truth(st, iv, cc.with_spec(spi)))
         old = st
         sp0 = Spec(old, names)
+        pre_refuted = False     # an argument certainly not of the declared type: the callee's clauses say nothing (the failing
+        # `pre` obligation reports it); the call is then only a havoc of what the callee may modify
         if cx.spec is None:
             for p, ty in c.params.items():
                 if p in names and names[p] is not None and names[p].e is not None and ty not in ("any", "V"):
                     self.side_obligation("pre", "%s.type-%s" % (c.qual, p), st, o.is_type(names[p].e, ty), c.qual)
+                    if o.entails(st, z3.Not(o.is_type(names[p].e, ty)), cheap=True):
+                        pre_refuted = True
             for lbl, rq in c.requires.items():
                 g = self.spec_truth(st, rq, cc.with_spec(sp0))
                 self.side_obligation("pre", "%s.%s" % (c.qual, lbl), st, g, c.qual, skolems=sp0.skolems)
@@ -540,7 +544,7 @@ class CallMixin:
         nm = dict(names)
         nm["result"] = res
         sp = Spec(old, nm, oldnames=names, mode="assume")
-        for lbl, en in list(c.ensures.items()) + list(c.defines_ensures.items()):
+        for lbl, en in ([] if pre_refuted else list(c.ensures.items()) + list(c.defines_ensures.items())):
             s1.assume(self.spec_truth(s1, en, cc.with_spec(sp)))
         for iv in visible_inv:
             s1.assume(self.spec_truth(s1, iv, cc.with_spec(Spec(s1, names, mode="assume"))))
@@ -556,7 +560,7 @@ class CallMixin:
             s2.assume(w.cls_of(eo) == ec)
             r = Raise(ec, w.V.ref(eo))
             sp2 = Spec(old, names, exc=r, mode="assume")
-            for lbl, rs in list(c.raises.items()) + list(c.defines_raises.items()):
+            for lbl, rs in ([] if pre_refuted else list(c.raises.items()) + list(c.defines_raises.items())):
                 s2.assume(self.spec_truth(s2, rs, cc.with_spec(sp2)))
             for iv in visible_inv:
                 s2.assume(self.spec_truth(s2, iv, cc.with_spec(Spec(s2, names, mode="assume"))))
